@@ -702,6 +702,13 @@ def run(ctx, load):
     ctx.floor('C12.refusal-first', 14)
     check_table_resize_refusal(P, ctx)
     check_node_caches(P, ctx)
+    # a missing key, at every size including a table whose slots were released (shared with C02 / C03, decided by evaluation there)
+    from . import rules_c02, rules_c03
+    def _miss():
+        fr = rules_c02.check_probe(P, ctx)
+        rules_c02.check_miss(P, ctx, fr)
+        rules_c03.check_miss_and_counts(P, ctx)
+    ctx.borrow('C12.missing-key', 6, _miss, only=lambda o: o['rule'] in ('C02.miss-raises', 'C03.miss-raises'))
     from . import seqmodel
     seqmodel.report_list_ops(P, ctx, 'C12.refused-list-operation', 'refused', site)
     ctx.floor('C12.refused-list-operation', 6)
